@@ -460,7 +460,7 @@ func (g *gen) contractCallGeneric(instr ssa.Instruction, con *Contract, sig *typ
 	}
 	// 3. effect
 	preTop := st.top
-	readonly := con.flag("pure")
+	readonly := con.flag("pure") || (len(mods) == 0 && !g.exposesHeap(sig))
 	if !readonly {
 		g.newEpoch(st, func(name, r string) string {
 			if r == "" {
@@ -469,14 +469,7 @@ func (g *gen) contractCallGeneric(instr ssa.Instruction, con *Contract, sig *typ
 						return "false"
 					}
 				}
-				if strings.HasPrefix(name, "G.") && !con.HasMod {
-					return "false" // no modifies clause: globals unknown
-				}
 				return "true"
-			}
-			if !con.HasMod && !g.isDocHeap(name) {
-				// no modifies clause: only the document heap is promised to be preserved (when docpure), nothing else
-				return "false"
 			}
 			conds := []string{app("<=", r, preTop)}
 			for _, m := range mods {
@@ -507,7 +500,7 @@ func (g *gen) contractCallGeneric(instr ssa.Instruction, con *Contract, sig *typ
 }
 
 func (g *gen) isDocHeap(name string) bool {
-	return strings.HasPrefix(name, "H.CandidateNode.") || name == "E.ptr.CandidateNode"
+	return strings.HasPrefix(name, "H.yqlib.CandidateNode.") || name == "E.ptr.yqlib.CandidateNode"
 }
 
 // instantiateModifies evaluates the modifies clauses of con in environment e (the callee's entry state).
@@ -655,8 +648,11 @@ func (g *gen) callerMods() []modClause {
 
 // frameChecked: is this heap variable subject to frame checking in the current mode?
 func (g *gen) frameChecked(name string) bool {
-	if g.con != nil && g.con.HasMod {
-		return strings.HasPrefix(name, "H.") || strings.HasPrefix(name, "E.") || strings.HasPrefix(name, "G.") || name == "L.len" || strings.HasPrefix(name, "C.")
+	if strings.HasPrefix(name, "IT.") || strings.HasPrefix(name, "GHOST.") {
+		return false
+	}
+	if g.con != nil && !g.con.flag("noframe") {
+		return true
 	}
 	if g.opts.docFrame {
 		return g.isDocHeap(name) || g.P.extraFrameHeap[name]
@@ -815,11 +811,6 @@ func (g *gen) callEffects(c *ssa.CallCommon, ef *effects) {
 		if con.flag("pure") {
 			return
 		}
-		if !con.HasMod {
-			// no modifies clause: everything except the document heap may change
-			ef.all = true
-			return
-		}
 		for _, m := range con.Modifies {
 			for _, h := range g.modHeapNames(m, callee) {
 				ef.strong[h] = true
@@ -892,13 +883,21 @@ func (g *gen) execReturn(x *ssa.Return, st *state) {
 		e.results = append(e.results, g.goVal(g.val(st, r), sig.Results().At(i).Type()))
 		e.resNames = append(e.resNames, sig.Results().At(i).Name())
 	}
+	retSuffix := ""
+	if len(x.Results) > 0 {
+		var rs []string
+		for _, r := range x.Results {
+			rs = append(rs, g.exprText(r))
+		}
+		retSuffix = " @return " + strings.Join(rs, ", ")
+	}
 	if g.con != nil && g.opts.functional && !g.con.flag("trusted") {
 		for i, en := range g.con.Ensures {
 			lbl := en.Label
 			if lbl == "" {
 				lbl = fmt.Sprintf("%d:%s", i+1, en.Text)
 			}
-			g.oblige("post", lbl, x.Pos(), g.specBool(e, en.Expr), en.Props)
+			g.oblige("post", lbl+retSuffix, x.Pos(), g.specBool(e, en.Expr), en.Props)
 		}
 	}
 	if g.opts.errprop && !g.con.flag("noerrprop") {
@@ -912,4 +911,47 @@ func (g *gen) execReturn(x *ssa.Return, st *state) {
 	// reachability cover for this return
 	o := g.oblige("cover", "return reachable", x.Pos(), "false", nil)
 	o.Cover = true
+}
+
+// exposesHeap: can a result of this signature give the caller access to objects the callee allocated
+// (pointers to yq structs, slices, maps, lists, non-error interfaces)? If not, and the callee modifies
+// nothing, the caller's heap is unchanged as far as the caller can observe.
+func (g *gen) exposesHeap(sig *types.Signature) bool {
+	seen := map[types.Type]bool{}
+	var exp func(t types.Type) bool
+	exp = func(t types.Type) bool {
+		if seen[t] {
+			return false
+		}
+		seen[t] = true
+		switch u := t.Underlying().(type) {
+		case *types.Pointer:
+			if p := namedPkg(t); p != "" && !g.P.isYq(p) && p != "container/list" {
+				return false
+			}
+			return true
+		case *types.Slice, *types.Map, *types.Chan, *types.Signature:
+			return true
+		case *types.Interface:
+			return types.TypeString(t, nil) != "error"
+		case *types.Struct:
+			if p := namedPkg(t); p != "" && !g.P.isYq(p) {
+				return false
+			}
+			for i := 0; i < u.NumFields(); i++ {
+				if exp(u.Field(i).Type()) {
+					return true
+				}
+			}
+		case *types.Array:
+			return exp(u.Elem())
+		}
+		return false
+	}
+	for i := 0; i < sig.Results().Len(); i++ {
+		if exp(sig.Results().At(i).Type()) {
+			return true
+		}
+	}
+	return false
 }
